@@ -325,6 +325,12 @@ Emit ==
                                                        rhs |-> ScriptOf(Dec(P(<<1, 0>>, 0), <<Leaf(Aff(<<<<1, 0>>, <<0, 1>>>>, <<0, 0>>)),
                                                                                                Leaf(Aff(<<<<0, 0>>, <<0, 1>>>>, <<0, 0>>))>>), K, "dfs")]>>,
                                           faults |-> <<>>, faultsweep |-> NG]))
+             \* the same with a partial operand (one-child decision): when every branch is pruned the pruning must be undone, faults or not
+             /\ PrintT("SCRIPT " \o ToJson([fam |-> "afftree", k |-> K, q |-> 1, mode |-> "history", lhs |-> ScriptOf(f'.abs, K, f'.lay),
+                                          steps |-> <<Step("eliminate"),
+                                                      [op |-> "compose_prune", aff |-> [m |-> <<>>, b |-> <<>>, q |-> 1],
+                                                       rhs |-> ScriptOf(Dec(P(<<1, 0>>, 0), <<Missing, Leaf(Aff(<<<<0, 0>>, <<0, 1>>>>, <<0, 0>>))>>), K, "dfs")]>>,
+                                          faults |-> <<>>, faultsweep |-> NG]))
         ELSE IF MODE \in {"prune", "pruneg", "prunea", "prunedeep"}
         THEN PrintT("SCRIPT " \o ToJson([fam |-> "afftree", k |-> K, q |-> 1, mode |-> "history", lhs |-> ScriptOf(f'.abs, K, f'.lay),
                                           steps |-> HistorySteps, faults |-> <<>>, exp |-> [root |-> h'.root, nodes |-> ObsSeq(h')]]))
